@@ -65,7 +65,7 @@ func ConcurrentPackage(rng *core.Rng, name string, n int) *ConcPackage {
 }
 
 // NumConcTemplates is the number of template families.
-const NumConcTemplates = 20
+const NumConcTemplates = 21
 
 // ConcurrentPackageFrom: with first >= 0 the i-th case uses template (first+i) mod NumConcTemplates
 // (a sweep over packages then covers every template), with first < 0 templates are drawn at random.
@@ -409,6 +409,15 @@ func worker(mu *sync.Mutex, c *sync.Cond, wg *sync.WaitGroup, p *uint64, d uint6
 			// the spawner after the join of that round
 			tmpl, det = "loop-body-var-shared-with-goroutine", true
 			body = fmt.Sprintf("\tmu := new(sync.Mutex)\n\tvar total uint64 = 0\n\tfor i := uint64(0); i < %d; i++ {\n\t\tvar got uint64 = 0\n\t\twg := new(sync.WaitGroup)\n\t\twg.Add(1)\n\t\tk := i + %d\n\t\tgo func() {\n\t\t\tmu.Lock()\n\t\t\tgot = k * 2\n\t\t\tmu.Unlock()\n\t\t\twg.Done()\n\t\t}()\n\t\twg.Wait()\n\t\tmu.Lock()\n\t\ttotal = total + got\n\t\tmu.Unlock()\n\t}\n\treturn total\n", nth, c1)
+		case 20:
+			// a poller that holds the lock and waits with a timeout (0, 1 or 5 ms) for a flag only another
+			// thread can set under the same lock: WaitTimeout must give the lock up while it waits. The number
+			// of polls is bounded, so a wait that never yields the lock is a RESULT (the sentinel) and not a
+			// hang: sync.Mutex hands a lock over to a goroutine that has waited 1 ms, so the setter gets in
+			// after a handful of polls; the bound is 5 * 10^6.
+			tmpl, det = "wait-timeout-poll-bounded", true
+			tmo := []int{0, 0, 1, 5}[rng.Intn(4)]
+			body = fmt.Sprintf("\tmu := new(sync.Mutex)\n\tcond := sync.NewCond(mu)\n\tvar ready bool = false\n\tvar val uint64 = 0\n\tmu.Lock()\n\tgo func() {\n\t\tmu.Lock()\n\t\tval = %d\n\t\tready = true\n\t\tmu.Unlock()\n\t}()\n\tvar polls uint64 = 0\n\tfor !ready {\n\t\tmachine.WaitTimeout(cond, %d)\n\t\tpolls = polls + 1\n\t\tif polls > 5000000 {\n\t\t\tbreak\n\t\t}\n\t}\n\tr := val\n\tmu.Unlock()\n\tif polls > 5000000 {\n\t\treturn 999999\n\t}\n\treturn r\n", 10+c1, tmo)
 		case 10:
 			// nested goroutines and a parameter captured; two locks taken in a fixed order
 			tmpl, det = "nested-spawn-two-locks", true
